@@ -99,7 +99,9 @@ Definition observe (c : cfg) (r : raw_item) (vals : list pval) : list string :=
            tag "R-zeroize" (map (fun a => show_zevents (spec_zeroize it a)) vals)
        | _ => [] end) ++
       (match find_body c i ZeroizeOnDrop with
-       | Some (_, _, BDrop d) => tag "G-drop" (map (fun a => ch_outcome show_zevents (eval_drop d a)) vals)
+       | Some (_, _, BDrop d) =>
+           tag "G-drop" (map (fun a => ch_outcome show_zevents (eval_drop d a)) vals) ++
+           tag "R-drop" (map (fun a => show_zevents (spec_zeroize it a)) vals)
        | _ => [] end)
   | Err _ => ["ERR"]
   | Panic _ => ["PANIC"]
